@@ -627,7 +627,16 @@ def describe(tier):
 
 def replay(case):
     if "files" not in case:
-        return None
+        # symlink / odd-name cases carry no file set: the unit is small, re-run it and look the case up
+        res = R.new_result()
+        if "what" in case:
+            run_symlink(res)
+        elif "name" in case:
+            run_oddnames(res)
+        else:
+            return None
+        hits = [v for v in res["violations"] if all(v["case"].get(k) == case.get(k) for k in ("what", "name", "entry"))]
+        return {"what": hits[0]["what"]} if hits else None
 
     def body(root_dir, elsewhere):
         for rel, text in case["files"].items():
